@@ -190,36 +190,36 @@ impl KademliaRoutingTable {
     }
 
     fn find_closest_nodes(&self, key: &DhtKey, count: usize) -> Vec<NodeInfo> {
-        // Optimization: Start from the bucket closest to the key and work outwards
-        // This avoids collecting all nodes from all 256 buckets when we only need a few
+        // Start from the bucket closest to the key and work outwards
         let target_bucket = self.get_bucket_index_for_key(key);
 
-        let mut candidates: Vec<(NodeInfo, [u8; 32])> = Vec::with_capacity(count * 2);
+        let mut candidates: Vec<(NodeInfo, [u8; 32])> = Vec::new();
 
-        // Collect from target bucket first, then expand outwards
-        for offset in 0..256 {
+        // Collect from target bucket first, then expand outwards. Every bucket is visited
+        // exactly once: offsets that leave the table are skipped instead of saturating onto
+        // bucket 0 / 255 again (which returned the same peer several times), and the walk is
+        // not cut short, because peers in buckets not yet visited can be closer to the key
+        // than candidates already collected.
+        for offset in 0..KADEMLIA_BUCKET_COUNT {
             // Check bucket above target (or at target when offset == 0)
-            let bucket_above = target_bucket.saturating_add(offset).min(255);
-            for node in self.buckets[bucket_above].get_nodes() {
-                let distance = node.id.0.distance(key);
-                candidates.push((node.clone(), distance));
-            }
-
-            // Check bucket below target (skip when offset == 0 to avoid duplicate)
-            if offset > 0 {
-                let bucket_below = target_bucket.saturating_sub(offset);
-                // Only check if it's a different bucket (saturating_sub may equal target_bucket)
-                if bucket_below != bucket_above {
-                    for node in self.buckets[bucket_below].get_nodes() {
-                        let distance = node.id.0.distance(key);
-                        candidates.push((node.clone(), distance));
-                    }
+            if let Some(bucket_above) = target_bucket
+                .checked_add(offset)
+                .filter(|b| *b < KADEMLIA_BUCKET_COUNT)
+            {
+                for node in self.buckets[bucket_above].get_nodes() {
+                    let distance = node.id.0.distance(key);
+                    candidates.push((node.clone(), distance));
                 }
             }
 
-            // Early exit: if we have enough candidates, we can stop expanding
-            if candidates.len() >= count * CANDIDATE_EXPANSION_FACTOR {
-                break;
+            // Check bucket below target (skip when offset == 0 to avoid duplicate)
+            if offset > 0
+                && let Some(bucket_below) = target_bucket.checked_sub(offset)
+            {
+                for node in self.buckets[bucket_below].get_nodes() {
+                    let distance = node.id.0.distance(key);
+                    candidates.push((node.clone(), distance));
+                }
             }
         }
 
@@ -486,10 +486,6 @@ const MAX_PENDING_DHT_REQUESTS: usize = 10_000;
 
 /// Number of K-buckets in Kademlia routing table (one per bit in 256-bit key space)
 const KADEMLIA_BUCKET_COUNT: usize = 256;
-
-/// Candidate expansion factor for find_closest_nodes optimization
-/// Collect 2x requested count before early exit to ensure good selection
-const CANDIDATE_EXPANSION_FACTOR: usize = 2;
 
 /// DHT routing table maintenance interval in seconds
 /// Periodic refresh of buckets and eviction of stale nodes
